@@ -1,6 +1,9 @@
 """C07 — --skip-failed isolates failures; without it failures abort.
 Fault injection at the entry of the three per-unit callers (guarded hook
-MOPEPGEN_VERIF_FAIL), every subset of units for inputs with few units."""
+MOPEPGEN_VERIF_FAIL), every subset of units for inputs with few units; and the
+other failure site of the command, an INVALID VARIANT SERIES (a record that
+cannot be placed on its transcript: `pool[tx_id]` raises ValueError in
+gather_data_for_call_variant), through plain input files."""
 from . import common, pipe_checks, pipe_explore
 
 
@@ -11,12 +14,22 @@ def run(ctx: common.Ctx):
         'units quick / <= 6 thorough; singletons + random subsets beyond), with --skip-failed '
         '(threads 1 or 3) and, for singletons and a sample, without; direct checks: completes, '
         'output = fault-free output minus failing units, tally, abort + no FASTA without the flag; '
-        'each run also replayed through the Lean model (stream run). non-trivial = run with >= 1 '
-        'peptide or an abort')
+        'each run also replayed through the Lean model (stream run). Second failure site: one more GVF '
+        'with a record that makes the variant series of ONE transcript invalid (gene position behind '
+        'the gene end / coordinates of another gene / unknown gene) — the transcript that sorts LAST '
+        'in dispatch order (with or without records of its own) or an inner one; --skip-failed with '
+        'threads 1 and 2..4 chosen so that 1..threads-1 dispatches are pending (all of 1-4 thorough): '
+        'output pairs and tally = run without that transcript\'s records, invalid count 1, Lean model '
+        'with the transcript as "no dispatch"; without the flag: abort, no FASTA. non-trivial = run '
+        'with >= 1 peptide or an abort')
     stats = pipe_checks.run_workers(ctx, pipe_explore.c07_worker, ctx.n(36, 400))
     ctx.coverage['fault_sets_explored'] = stats.get('fault_runs', 0)
+    ctx.coverage['invalid_series_runs'] = stats.get('invalid_skip_runs', 0) + stats.get('invalid_noskip_runs', 0)
     ctx.assumptions += [
         'per-unit callers are data in the model: the deny-list coupling main -> circRNA of the same '
         'transcript (a circRNA unit may report peptides a failed main unit would have claimed) is '
         'outside the model and explicitly tolerated by the direct check',
-        'process pool (pathos) behaviour under threads>1 is exercised, not modelled']
+        'process pool (pathos) behaviour under threads>1 is exercised, not modelled',
+        'invalid series of a transcript that is also the fusion accepter of another transcript: the '
+        'abort under --skip-failed is an open finding (known_findings.json); the isolation check then '
+        'runs on the input without those fusion records']
